@@ -9,6 +9,7 @@ import (
 
 	"github.com/golang/protobuf/proto"
 	"github.com/hashicorp/raft"
+	"github.com/robustirc/robustirc/internal/raftlog"
 	"github.com/robustirc/robustirc/internal/raftstore"
 	"github.com/robustirc/robustirc/internal/robust"
 
@@ -70,7 +71,20 @@ func (s *robustSnapshot) persistJSON(sink raft.SnapshotSink) error {
 		if err := iterator.Error(); err != nil {
 			return err
 		}
-		n, err := sink.Write(iterator.Value())
+		value := iterator.Value()
+		if len(value) > 0 && value[0] == 'p' {
+			// Entries which were restored from the protobuf snapshot of
+			// another node are stored verbatim. Re-encode them, a JSON
+			// snapshot cannot contain protobuf entries.
+			nlog, err := raftlog.FromBytes(value)
+			if err != nil {
+				return err
+			}
+			if value, err = json.Marshal(nlog); err != nil {
+				return err
+			}
+		}
+		n, err := sink.Write(value)
 		if err != nil {
 			return err
 		}
